@@ -435,6 +435,56 @@ theorem foreign_node_resaved (f : Nat) (d : Doc) (s : St Op) (h : fromSerial (op
   simp only [liftO, Except.ok.injEq] at e2
   exact e2.symm
 
+/-! #### function constants: nested documents
+
+`FunctionValue.deserialize` loads the nested document and `Function._to_serial` saves it again, so at
+document level the body of a function constant is *re-saved* (direction (B) applies to it
+recursively).  `Nested.codecWith g` is the operation codec that does this with `g` as the re-save of
+a nested document (`Nested.resave`: `g` = load + save with the same codec, one nesting level less). -/
+
+/-- **What is loaded for a node with function constants**: the decoded operation with the body
+    document of every function constant re-saved; every other operation exactly as decoded. -/
+theorem nested_bodies_resaved (g : Json → Except Serial.Err Json) (fuel : Nat) (j : Json) (op : Op) (p : Int)
+    (h : (Nested.codecWith g fuel).dec j = .ok (op, p)) :
+    ∃ op0, decOp fuel j = .ok (op0, p) ∧ Nested.mapConst g op0 = .ok op ∧
+      ((∀ v, op0 ≠ .const v) → op = op0) := by
+  obtain ⟨op0, h1, h2⟩ := Nested.codecWith_dec g fuel j op p h
+  refine ⟨op0, h1, h2, fun hn => ?_⟩
+  cases op0 <;> first
+    | (simp only [Nested.mapConst, pure, Except.pure, Except.ok.injEq] at h2; exact h2.symm)
+    | exact absurd rfl (hn _)
+
+/-- **Body documents that are fixed points of load/save are carried verbatim** — the case the value
+    model describes (every document the library wrote itself: C02). -/
+theorem nested_fixed_bodies_verbatim (g : Json → Except Serial.Err Json) (fuel : Nat) (j : Json) (op : Op) (p : Int)
+    (h0 : decOp fuel j = .ok (op, p))
+    (hfix : ∀ v, op = .const v → Nested.AllBodies (fun b => g b = .ok b) v) :
+    (Nested.codecWith g fuel).dec j = .ok (op, p) :=
+  Nested.codecWith_dec_fixed g fuel j op p h0 hfix
+
+/-- **Re-saving a loaded node, nested documents included**: the node written is the encoding of the
+    decoded operation with its function bodies re-saved, where the decoded operation itself encodes
+    to the projection of the foreign node (so for every node other than a `Const` with a function
+    constant, the node written *is* that projection); metadata as before. -/
+theorem foreign_node_resaved_nested (g : Json → Except Serial.Err Json) (f : Nat) (d : Doc) (s : St Op)
+    (h : fromSerial (Nested.codecWith g (f + 1)) d = .ok s)
+    (order : List Nat) (k : Nat) (hk : k < d.nodes.length) (r : Json × Option Meta)
+    (hs : serialNode (Nested.codecWith g (f + 1)) s order k = .ok r) :
+    ∃ (par : Int) (p : Nat) (op0 op : Op), decOp (f + 1) d.nodes[k] = .ok (op0, par) ∧
+      Nested.mapConst g op0 = .ok op ∧ rekey order ((C05Doc.parentOf k par).getD k) = .ok p ∧
+      encOp op0 p = .ok (Proj.opAt (.int p) (Proj.val f) f d.nodes[k]) ∧ encOp op p = .ok r.1 ∧
+      r.2 = C05Doc.savedEntry (getMeta d.metadata k) := by
+  obtain ⟨op, par, nd, h1, h2, h3, h4, h5⟩ := C05Doc.fromSerial_nodes (Nested.codecWith g (f + 1)) d s h k hk
+  obtain ⟨op0, e0, e1⟩ := Nested.codecWith_dec g (f + 1) _ op par h1
+  obtain ⟨p, a1, a2, a3⟩ := C05Doc.serialNode_loaded (Nested.codecWith g (f + 1)) s order k nd h2 r hs
+  refine ⟨par, p, op0, op, e0, e1, by rw [← h5]; exact a1, Proj.abs_op_at f _ op0 par e0 (p : Int), ?_, by rw [a3, h4]⟩
+  simp only [Nested.codecWith, opsCodec, h3] at a2
+  cases he : encOp op (p : Int) with
+  | error e => simp [he, liftO] at a2
+  | ok j' =>
+    simp only [he, liftO, Except.ok.injEq] at a2
+    rw [a2]
+
 /-- **Port offsets are preserved; an edge end without offset becomes the order port**: an end written
     with offset `o` is re-saved with `o`; an end written *without* offset (how the Rust writer
     addresses every port that is not a dataflow port) is attached to the order port `-1` when the
